@@ -23,12 +23,14 @@ EXTENDS BigNat, FiniteSets
 RECURSIVE Pow2(_)
 Pow2(n) == IF n = 0 THEN FromInt(1) ELSE MulSmall(Pow2(n - 1), 2)
 One == FromInt(1)
-MinI64 == Neg(Pow2(63))
-MaxI64 == Sub(Pow2(63), One)
+P63 == Pow2(63)
+P64 == Pow2(64)
+MinI64 == Neg(P63)
+MaxI64 == Sub(P63, One)
 InI64(x) == Le(MinI64, x) /\ Le(x, MaxI64)
-InU64(x) == ~x.neg /\ Lt(x, Pow2(64))
+InU64(x) == ~x.neg /\ Lt(x, P64)
 \* what a CBOR major type 0 / 1 integer can hold
-InCborInt(x) == Le(Neg(Pow2(64)), x) /\ Lt(x, Pow2(64))
+InCborInt(x) == Le(Neg(P64), x) /\ Lt(x, P64)
 
 \* big-endian bytes <-> natural number
 RECURSIVE FromBytesAcc(_, _, _)
